@@ -14,14 +14,25 @@
    observation equals the one computed with every enumeration sorted.
    With Site = AllSorted (what the property states) TLC proves it for all
    permutations of <= N elements; with a raw site whose order reaches the
-   observable TLC finds the permutation (ReportVary lists them all). *)
+   observable TLC finds the permutation (ReportVary lists them all).
+
+   The elements are Plain plain ones (1..Plain: each with a rendering of its
+   own) and Alike ones that render alike (AlikeBase+1 ..: anonymous functions,
+   objects differing in hidden members ...).  With Site = ByRender (every site
+   sorts, but by the renderings alone) a collection holding two alike elements
+   shows its internal order at every sorting site: TLC lists the programs. *)
 EXTENDS OrderOps, Json, IOUtils
 
-CONSTANTS N,        \* elements 1..N
-          Site      \* site -> "sorted" | "raw"
+CONSTANTS N,        \* a collection holds at most N elements
+          Plain,    \* elements 1..Plain
+          Alike,    \* and AlikeBase+1 .. AlikeBase+Alike
+          Site      \* site -> "sorted" | "raw", "relation" -> "total" | "render"
+
+Elems == (1..Plain) \cup ((AlikeBase + 1)..(AlikeBase + Alike))
 
 SiteSpec     == AllSorted
-SiteObserved == LET t == JsonDeserialize(IOEnv.SITE_FILE) IN [s \in Sites |-> t[s]]
+SiteByRender == ByRender
+SiteObserved == LET t == JsonDeserialize(IOEnv.SITE_FILE) IN [s \in TabKeys |-> t[s]]
 
 VARIABLES prog,     \* index into Programs
           pc,       \* 0 = the collection is under construction, k = stage k is next
@@ -37,7 +48,7 @@ Init == /\ prog \in 1..Len(Programs)
         /\ cur = Coll({}, << >>)
         /\ base = Coll({}, << >>)
 
-Add(e) == /\ pc = 0 /\ e \notin cur.elems
+Add(e) == /\ pc = 0 /\ e \notin cur.elems /\ Cardinality(cur.elems) < N
           /\ cur' = Coll(cur.elems \cup {e}, Append(cur.ord, e))
           /\ UNCHANGED <<prog, pc, base>>
 
@@ -64,7 +75,7 @@ PureStep == /\ pc \in 1..Len(Stages) /\ Stages[pc].k \notin {"enum", "build"}
             /\ pc' = pc + 1
             /\ UNCHANGED <<prog, base>>
 
-Next == \/ \E e \in 1..N : Add(e)
+Next == \/ \E e \in Elems : Add(e)
         \/ Reorder \/ Start \/ EnumStep \/ BuildStep \/ PureStep
 
 Spec == Init /\ [][Next]_vars
@@ -75,9 +86,33 @@ IsPerm(q, S) == Len(q) = Cardinality(S) /\ ToSet(q) = S
 TypeOK == /\ prog \in 1..Len(Programs)
           /\ pc \in 0..(Len(Stages) + 1)
           /\ cur.t \in {"coll", "seq"}
-          /\ cur.t = "coll" => IsPerm(cur.ord, cur.elems) /\ cur.elems \subseteq 1..N
-          /\ IsPerm(base.ord, base.elems)
+          /\ cur.t = "coll" => /\ IsPerm(cur.ord, cur.elems) /\ Cardinality(cur.elems) <= N
+                                /\ (pc = 0 => cur.elems \subseteq Elems)
+          /\ IsPerm(base.ord, base.elems) /\ base.elems \subseteq Elems
           /\ \A i \in 1..Len(Programs) : SitesOfProg(i) \subseteq Sites
+          /\ \A e \in Elems : IsAlike(e) <=> e > Plain
+          /\ Site \in [TabKeys -> {"sorted", "raw", "total", "render"}]
+          /\ Site["relation"] \in {"total", "render"}
+          /\ \A s \in Sites : Site[s] \in {"sorted", "raw"}
+
+(* the two relations: Lt is a strict total order on the elements, LtKey is the
+   same order with exactly the alike elements tied *)
+RelationsOK ==
+  \A x \in Elems, y \in Elems :
+     /\ (x # y => (Lt(x, y) \/ Lt(y, x))) /\ ~(Lt(x, y) /\ Lt(y, x))
+     /\ LtKey(x, y) => Lt(x, y)
+     /\ (x # y /\ ~LtKey(x, y) /\ ~LtKey(y, x)) <=> (x # y /\ IsAlike(x) /\ IsAlike(y))
+
+(* a stable sort by the renderings is a permutation, is sorted by key, and is
+   the total sort when no two members tie *)
+StableSortOK ==
+  cur.t = "coll" =>
+    LET q == StableByKey(cur.ord) IN
+    /\ IsPerm(q, cur.elems)
+    /\ \A i, j \in 1..Len(q) : i < j => ~LtKey(q[j], q[i])
+    /\ \A i, j \in 1..Len(q) : (i < j /\ Key(q[i]) = Key(q[j])) =>
+          \E a, b \in 1..Len(cur.ord) : a < b /\ cur.ord[a] = q[i] /\ cur.ord[b] = q[j]
+    /\ Cardinality({e \in cur.elems : IsAlike(e)}) <= 1 => q = EnumSorted(cur)
 
 (* the sorted enumeration is an enumeration: a permutation of the content *)
 SortedIsEnumeration ==
@@ -102,5 +137,5 @@ ASSUME PrintT("@@PROGS@@" \o ToJson(
             [id |-> Programs[i].id,
              sites |-> SetToSeq(SitesOfProg(i)),
              stages |-> [j \in 1..Len(Programs[i].stages) |-> Programs[i].stages[j].k],
-             ref4 |-> RefEval(Programs[i].stages, 1..4)]]))
+             ref4 |-> RefEval(Programs[i].stages, {1, 2, AlikeBase + 1, AlikeBase + 2})]]))
 =============================================================================
